@@ -247,6 +247,8 @@ def gen_fields(kind: str, rng, big: bool = False, ctx_iv: int = 8) -> dict:
         f = rng.choice([0, 1, 1, 0x800001, 2])
         d = rng.choice([0, 0, 8, 16, bnd(rng, 8)])
         sizes = [bnd(rng, 8) for _ in range(rng.choice([0, 1, 3, n_max]))] if d == 0 else []
+        if sizes and rng.random() < .3:
+            sizes = [rng.choice([8, 16, 1, 255])] * len(sizes)   # the long spelling of a constant size
         return dict(version=v, flags=f, aux_info_type=bnd(rng, 32) if f & 1 else 0,
                     aux_info_type_parameter=bnd(rng, 32) if f & 1 else 0, default_sample_info_size=d,
                     sample_count=len(sizes) if d == 0 else bnd(rng, 32), sample_info_sizes=sizes)
